@@ -71,6 +71,11 @@ func toF(v *Val) float64 {
 		return float64(x)
 	case float64:
 		return x
+	case string: // a decimal numeral of the pool
+		f, err := strconv.ParseFloat(x, 64)
+		if err == nil {
+			return f
+		}
 	}
 	return math.NaN()
 }
